@@ -420,25 +420,46 @@ def oracle(sc, obs):
     has_addr = bool(fin["v4"] or fin["v6"])
     if obs["result"] != has_addr:
         out.append(("C18:iff", "returned %s while %s address is known" % (obs["result"], "an" if has_addr else "no")))
-    # --- freshness / provenance: every field equals that of a record that was unexpired when the lookup read it
-    reads = []  # (record, time)
-    for b in blocks:
-        for r in b["cache"] + b["recs"]:
-            reads.append((r, b["now"]))
-    untouched = (fin["server"], fin["port"], fin["priority"], fin["weight"]) == (sc.get("server") or None, None, 0, 0)   # as constructed
-    if not untouched:
-        ok = any(r["kind"] == "DNSService" and r["name"].lower() == name.lower() and not expired(r, t)
-                 and r["srv"] == (fin["server"], fin["port"], fin["priority"], fin["weight"]) for r, t in reads)
-        if not ok:
-            out.append(("C18:stale-srv", "host/port/priority/weight %r were not taken from an unexpired SRV of the instance" % ((fin["server"], fin["port"], fin["priority"], fin["weight"]),)))
+    # --- freshness / provenance: every field was taken from a record that was unexpired WHEN IT WAS READ.  The read is pinned to the
+    #     block that gave the field its final value (Lean: `C18_block_fresh` / `AssignedIn`): the last block across which the field
+    #     changed must itself have read -- in its cache snapshot or its record list -- an unexpired record carrying that value.  (A record
+    #     that sat unexpired in the cache of an EARLIER block does not justify a field assigned later from its expired self.)
+    init = {"server": sc.get("server") or None, "server_key": (sc.get("server") or "").lower() or None, "port": None, "priority": 0, "weight": 0,
+            "text": "", "v4": [], "v6": []}
+
+    def assigned_in(changed):
+        """index of the last block across which `changed(before, after)` holds, or None"""
+        k, prev = None, init
+        for idx, b in enumerate(blocks):
+            if changed(prev, b["fields"]):
+                k = idx
+            prev = b["fields"]
+        return k
+
+    def reads_of(k):
+        return blocks[k]["cache"] + blocks[k]["recs"], blocks[k]["now"]
+
+    srv_of = lambda f: (f["server"], f["port"], f["priority"], f["weight"])
+    k = assigned_in(lambda a, b: srv_of(a) != srv_of(b))
+    if k is not None and srv_of(fin) != srv_of(init):
+        reads, t = reads_of(k)
+        if not any(r["kind"] == "DNSService" and r["name"].lower() == name.lower() and not expired(r, t) and r["srv"] == srv_of(fin) for r in reads):
+            out.append(("C18:stale-srv", "host/port/priority/weight %r were assigned in block %d (+%d ms), which read no unexpired SRV of the instance carrying them"
+                        % (srv_of(fin), k, t - obs["t0"])))
     if fin["text"] != "":
-        ok = any(r["kind"] == "DNSText" and r["name"].lower() == name.lower() and not expired(r, t) and r["text"] == fin["text"] for r, t in reads)
-        if not ok:
-            out.append(("C18:stale-txt", "TXT %s was not taken from an unexpired TXT record of the instance" % fin["text"]))
+        k = assigned_in(lambda a, b: a["text"] != b["text"])
+        reads, t = reads_of(k)
+        if not any(r["kind"] == "DNSText" and r["name"].lower() == name.lower() and not expired(r, t) and r["text"] == fin["text"] for r in reads):
+            out.append(("C18:stale-txt", "TXT %s was assigned in block %d (+%d ms), which read no unexpired TXT record of the instance carrying it" % (fin["text"], k, t - obs["t0"])))
     for a in fin["v4"] + fin["v6"]:
-        ok = fin["server_key"] is not None and any(r["kind"] == "DNSAddress" and r["name"].lower() == fin["server_key"] and not expired(r, t) and r["addr"] == a for r, t in reads)
+        # the address entered the object, or stayed while the host changed, in block k
+        k = assigned_in(lambda x, y: a in y["v4"] + y["v6"] and (a not in x["v4"] + x["v6"] or x["server_key"] != y["server_key"]))
+        ok = False
+        if k is not None and fin["server_key"] is not None:
+            reads, t = reads_of(k)
+            ok = any(r["kind"] == "DNSAddress" and r["name"].lower() == fin["server_key"] and not expired(r, t) and r["addr"] == a for r in reads)
         if not ok:
-            out.append(("C18:stale-address", "address %s was not taken from an unexpired address record of host %s" % (a, fin["server_key"])))
+            out.append(("C18:stale-address", "address %s entered the object in block %s, which read no unexpired address record of host %s carrying it" % (a, k, fin["server_key"])))
     s0 = blocks[0]
     if s0["ret"] is True and fin["server_key"] is not None:
         # answered from the cache: all unexpired addresses of the host
